@@ -182,6 +182,8 @@ class Individual(metaclass=ABCMeta):
     def from_dict(dictionary):
         individual = Individual()
         individual.id = dictionary['id']
+        # ids given out from now on must not collide with the ids which are read back
+        Individual.counter = max(Individual.counter, individual.id + 1)
 
         individual.vector = dictionary['vector']
         individual.costs = dictionary['costs']
